@@ -200,6 +200,16 @@ func genC06(t *rapid.T) *C06Case {
 	if withPS {
 		c.Switches = map[string]string{"V": rapid.SampledFrom([]string{"A", "B", "1", "zz"}).Draw(t, "swV"), "W": rapid.SampledFrom([]string{"A", "B", "q"}).Draw(t, "swW")}
 	}
+	if scs := c.File.Scripts(); len(scs) >= 2 && rapid.IntRange(0, 4).Draw(t, "prefixname") == 0 {
+		// one script is named like the stem of another script's generated labels (Route1_Text_Sign next to
+		// Route1): numbering is per owning script, not per label prefix
+		i := rapid.IntRange(0, len(scs)-1).Draw(t, "prefixwho")
+		j := rapid.IntRange(0, len(scs)-2).Draw(t, "prefixof")
+		if j >= i {
+			j++
+		}
+		renameIdent(c.File, scs[i].Name, scs[j].Name+rapid.SampledFrom([]string{"_Text_Sign", "_Movement_Walk", "_Text_", "_Text_0x"}).Draw(t, "prefixstem"))
+	}
 	// AutoVar commands may occur several times: make each occurrence identifiable
 	{
 		names, blocks := EntryBlocks(c.File)
@@ -239,7 +249,46 @@ func TestC06_Regress(t *testing.T) { runRegress(t, "C06") }
 
 func TestC06_Hoist(t *testing.T) {
 	st := stat("C06")
-	st.SetRule("files of up to 5 scripts / mapscripts with inline scripts / texts / movements whose commands (also AutoVar commands inside conditions and switch operands) carry inline strings (plain, ascii/braille/custom typed, multi-part, format() with positional and named parameters) and moves() drawn from a small pool so repeats within and across scripts and string types are frequent; the harness' binding model predicts label and content for every argument slot; 1 in 6 cases adds a text/movement statement named like a generated label (must be rejected exactly when that label is really produced). non-trivial = >= 2 owning scripts, >= 1 content shared by several arguments and >= 2 string types (or a rejected clash); distinct by source text")
+	st.SetRule("files of up to 5 scripts / mapscripts with inline scripts / texts / movements whose commands (also AutoVar commands inside conditions and switch operands) carry inline strings (plain, ascii/braille/custom typed, multi-part, format() with positional and named parameters) and moves() drawn from a small pool so repeats within and across scripts and string types are frequent; the harness' binding model predicts label and content for every argument slot; 1 in 5 files names one script like the stem of another script's generated labels (ScrB_Text_Sign next to ScrB); 1 in 6 cases adds a text/movement statement named like a generated label (must be rejected exactly when that label is really produced). non-trivial = >= 2 owning scripts, >= 1 content shared by several arguments and >= 2 string types (or a rejected clash); distinct by source text")
 	st.Assume("format() content is taken from the exported FormatText (C07 checks it)", "sharing is demanded for identical written content only")
 	runRapid(t, "C06", "TestC06_Hoist", genC06, checkC06, c06Src)
+}
+
+// renameIdent renames a script and every reference to it (command arguments, ':' map-script entries and rows).
+func renameIdent(f *File, old, new string) {
+	fix := func(b *Block) {
+		walkStmts(b, func(s *Stmt) {
+			if s.K == "cmd" {
+				for _, a := range s.Cmd.Args {
+					for i, tk := range a.Toks {
+						if tk == old {
+							a.Toks[i] = new
+						}
+					}
+				}
+			}
+		})
+	}
+	for _, tp := range f.Tops {
+		switch tp.K {
+		case "script":
+			if tp.Script.Name == old {
+				tp.Script.Name = new
+			}
+			fix(tp.Script.Body)
+		case "mapscripts":
+			for _, e := range tp.Map.Entries {
+				if e.Label == old {
+					e.Label = new
+				}
+				fix(e.Body)
+				for _, r := range e.Rows {
+					if r.Label == old {
+						r.Label = new
+					}
+					fix(r.Body)
+				}
+			}
+		}
+	}
 }
